@@ -81,6 +81,11 @@ CLAIMS["C06"] = dict(
   text="Decides on /repo's current tree the structural conditions under which readability choices cannot change the quantity: prettify's hard-wired special cases agree with the database (kilogram = 1000 gram, byte = 8 bit, tonne = mega gram, sixteen prefixes = 10^(+-3k) tiling by 1000); every arithmetic tree applied to the value in prettify is one of the reference scalings, each raised to the unit's own exponent with name and divisor from the same prefix entry, and every displayed exponent is the unit's own; dimensions/quantity come from the result's own unit; factor/divfactor are numerator/denominator of one constant and the unit is the target's own name map; the printed factor of a conversion target is computed without any float-introducing site; fast_decompose stores the exponent it divided by under the paired name; all unit-map merges add exponents and drop zeros. Equality of numeral x factor x unit with the quantity for every magnitude is a statement about values and is not claimed.",
   note="Trusted: the reference-tree table in rules/c06.py (a new, correct special case needs a table line), the data-file folder, driver.",
   design_ref="DESIGN.md section 4, C06")
+CLAIMS["C11"] = dict(
+  technique="table extraction from HIR (printer precedence tables and arm shapes; parser ladder; lexer symbol map) + exhaustive abstract round-trip over all depth<=2 trees and depth-3 spines with generic printer/parser models parameterised only by the extracted tables",
+  text="The printer's tables (Precedence order, from/next/right/factor, per-variant parenthesisation thresholds and child precedences of both Display for Expr and ExprReply::from, BinOpType::symbol) and the parser's ladder (levels, token arms, operand functions, loops vs self-calls, juxtaposition break set, product accumulation, singleton collapse, of/unary/function operand levels) are extracted from /repo's current HIR with skeleton validation; the lexer map ties each printed symbol to the token the parser handles with the same operator. A generic printer model and a generic ladder-parser model are run in token space over all 4789 trees of depth <= 2 over 18 node kinds and all 17298 depth-3 spines; every (parent, slot, child) pair must re-parse to the identical tree, and the two printers must agree. This is an exhaustive decision at the abstract level (exhaustive for the enumerated shapes; deeper interactions beyond depth-3 spines are not enumerated). Leaf spelling (identifiers needing quotes, numerals, dates) is excluded as in the statement.",
+  note="Trusted: that the models are faithful for bodies whose skeleton the extractor accepts (validated once against the real parser/printer on 22087 trees in the design phase and on 22 spot cases after the repair); a restructured printer or parser is reported as anchor-lost.",
+  design_ref="DESIGN.md section 4, C11")
 NA = {
  "C05": "digit strings, recurring-block offsets and the 1-ulp truncation bound are number-theoretic facts about runtime values of p/q and the base; no structural clause is a genuine necessary condition (DESIGN.md section 4, C05)",
 }
